@@ -467,4 +467,32 @@ class C02(Prop):
         return case
 
     def shrink(self, ctx, case, pred):
-        return case
+        """minimise the operation sequence: explicit ops, shortest failing prefix, then drop single edit ops"""
+        ob = self._run_case(dict(case))
+        ops = ob.get("ops")
+        if not ops:
+            return case
+        base = {k: v for k, v in case.items() if k != "ops"}
+        nb = ob.get("build_len", 0)
+
+        def fails(o):
+            try:
+                return pred(dict(base, ops=o))
+            except Exception:
+                return False
+        cur = list(ops)
+        if not fails(cur):
+            return case
+        lo = nb + 1
+        for n in range(lo, len(cur) + 1):           # shortest failing prefix
+            if fails(cur[:n]):
+                cur = cur[:n]
+                break
+        i = nb
+        while i < len(cur) - 1:                      # drop edit ops that are not needed
+            cand = cur[:i] + cur[i + 1:]
+            if fails(cand):
+                cur = cand
+            else:
+                i += 1
+        return dict(base, ops=cur)
